@@ -48,7 +48,7 @@ All == 1..N
 Same(i) == {j \in All : pool[j] = pool[i]}
 Bits1 == {c \in All : pool[c] = 1}
 
-Push(w, rec) == /\ pool' = Append(pool, w) /\ h' = Append(h, rec) /\ UNCHANGED <<W, emitted>>
+Push(w, rec) == /\ pool' = Append(pool, w) /\ h' = Append(h, rec @@ [rw |-> w]) /\ UNCHANGED <<W, emitted>>   \* rw: the width the call dictates
 
 Bin == \E s \in BinArith \cup BinCmp \cup BinWide \cup BinShift, i \in Pick1(All) :
        \E j \in Pick1(IF s \in BinShift THEN All ELSE Same(i)) :
